@@ -12,7 +12,7 @@ WRAPS = ['gettimeofday', 'regexec', 'socket', 'setsockopt', 'connect', 'getsocko
 def build():
     gen_parser()
     srcs = ['udmn.c', 'gen:parse_lex.c', 'gen:parse_tab.c'] + \
-        [S('powerman/%s.c' % x) for x in ('arglist', 'parse_util', 'pluglist', 'debug', 'device_pipe', 'device_serial')] + \
+        [S('powerman/%s.c' % x) for x in ('arglist', 'pluglist', 'debug', 'device_pipe', 'device_serial')] + \
         [S('liblsd/%s.c' % x) for x in ('hostlist', 'list', 'cbuf', 'hash')] + \
         [S('libcommon/%s.c' % x) for x in ('error', 'xmalloc', 'hprintf', 'fdutil', 'argv', 'xpoll', 'xread')]
     return cc('udmn', srcs, wraps=WRAPS)
@@ -29,6 +29,18 @@ node "t[0-7]" "d0"
 node "u[0-3]" "d1" "[0-3]"
 ''',
 }
+# two vpc devices over tcp (the common deployment): for the paired runs of C05 with a healthy *tcp* device next to a sick one
+CONFS['tcp2'] = '''include "{repo}/t/etc/vpc.dev"
+device "d0" "vpc" "127.0.0.1:11001"
+device "d1" "vpc" "127.0.0.1:11002"
+node "t[0-7]" "d0"
+node "u[0-3]" "d1" "[0-3]"
+'''
+# aliases (conf_exp_aliases): several nodes of one device, across devices, one node, a member named twice, all nodes
+MIXP_ALIASES = collections.OrderedDict([('rackt', 't[0-3]'), ('mix', 't7,u[1-2]'), ('solo', 'u0'), ('dupl', 't1,t1'), ('everything', 't[0-7],u[0-3]')])
+import preds as _preds
+_preds.ALIASES = {k.encode(): _preds.expand_hl(v.encode()) for k, v in MIXP_ALIASES.items()}     # MarkerWorld configurations have none: names differ
+CONFS['mixp'] += ''.join('alias "%s" "%s"\n' % kv for kv in MIXP_ALIASES.items())
 
 
 def conf_path(name):
@@ -71,8 +83,10 @@ class Gen:
         if r < 0.8: return "u[0-3],t[2-4]"
         if r < 0.86: return "t[0-7]"
         if r < 0.92: return "u[0-3]"
-        if r < 0.96: return "u1,t1,u1"
-        return "t[0-3],t20"
+        if r < 0.94: return "u1,t1,u1"
+        if r < 0.95: return "t[0-3],t20"
+        # alias names: alone, with nodes (before and after, overlapping), twice, with an unknown name
+        return R.choice(["rackt", "mix", "solo", "dupl", "everything", "rackt,u3", "t5,rackt", "t2,rackt,t2", "mix,mix", "solo,mix,rackt", "rackt,zz9", "u[0-1],dupl", "rackt,t[2-5]"])
 
     def longline(self):
         """a request line around CP_LINEMAX (131072): at or above it the daemon answers 203 and executes nothing"""
@@ -584,6 +598,8 @@ def simulate_sched(seed, N, sickB, conf='mixp'):
     g = Gen(seed + 1, dict(faults=0.0, garbage=0.0))      # device A: always well-behaved, own PRNG
     gB = Gen(seed + 2, dict(faults=0.0, garbage=0.0))
     RB = random.Random(seed + 3)
+    RA = random.Random(seed + 4)        # how the healthy tcp device's answers are cut into segments and where telnet NOPs go
+    tcpA = conf == 'tcp2'; afds = set()
     errpath = os.path.join(tree_dir(), 'udmn.err.%d.%d.%d' % (os.getpid(), seed, int(sickB)))
     p, dump, c_op = run_c(binary, cpath, None, N, errpath)
     ops = []; couts = []; xsl = []; stats = collections.Counter()
@@ -593,7 +609,7 @@ def simulate_sched(seed, N, sickB, conf='mixp'):
     flooded = {}; garb = [0]
     for it in range(N):
         if it == 0:
-            op = "I 0 %d 0" % (2 if sick_mode == 'refuse' else 1)
+            op = "I 0 %d 0" % (2 if sick_mode == 'refuse' and not tcpA else 1)
         else:
             s = sched[it - 1]
             parts = []
@@ -606,14 +622,25 @@ def simulate_sched(seed, N, sickB, conf='mixp'):
             for di in range(ND):
                 if dfd[di] < 0: continue
                 rev = 0; rk = 0; data = b""
-                if di == 1:          # A: healthy coprocess
-                    if conn[di] == 2:
+                if di == 1:          # A: healthy (a coprocess, or with tcp2 a tcp device that answers in segments with telnet NOPs)
+                    if conn[di] == 1: rev = 2
+                    elif conn[di] == 2:
                         if pending[di]:
-                            data = pending[di]; pending[di] = b""; rev |= 1
+                            if tcpA:
+                                n = RA.choice([len(pending[di]), RA.randint(1, len(pending[di])), RA.randint(1, len(pending[di]))])
+                                data = pending[di][:n]; pending[di] = pending[di][n:]
+                                if RA.random() < 0.3:
+                                    k = RA.randrange(len(data) + 1); data = data[:k] + RA.choice([b"\xff\xf1", b"\xff\xfd\x03", b"\xff\xf1\xff\xf1"]) + data[k:]
+                            else:
+                                data = pending[di]; pending[di] = b""
+                            rev |= 1
                         if dto[di]: rev |= 2
                 else:                # B
                     if conn[di] == 1:
-                        if sick_mode == 'refuse': rev = 2; soe = 1
+                        if sick_mode == 'refuse':
+                            # the kernel's answers are per pass, not per device: never let B's refusal fall into a pass in which A connects
+                            if tcpA and conn[1] == 1: rev = 0
+                            else: rev = 2; soe = 1
                         else: rev = 2
                     elif conn[di] == 2:
                         if dto[di]: rev |= 2
@@ -631,7 +658,7 @@ def simulate_sched(seed, N, sickB, conf='mixp'):
                             pending[di] = b""
                         elif sick_mode == 'close':
                             if pending[di] or RB.random() < 0.1: rev |= 1; rk = 2; pending[di] = b""
-                if sick_mode == 'refuse' and di == 0: con = 2
+                if sick_mode == 'refuse' and di == 0 and not tcpA: con = 2
                 if (rev & 1) and rk == 0 and not data: rev &= ~1
                 if rev: parts.append("%d:%d:%d:%s:%d" % (dfd[di], rev, rk, hx(data), 1 << 20))
             op = "P %d %d %d %d" % (s['now'], s['acc'], con, soe) + "".join(" " + x for x in parts)
@@ -644,6 +671,7 @@ def simulate_sched(seed, N, sickB, conf='mixp'):
         for l in obs:
             if l.startswith("O dev ") and l.split()[3] == "conn":
                 t = l.split(); di = int(t[2]); newconn = int(t[4]); dfd[di] = int(t[7])
+                if di == 1 and dfd[di] >= 0: afds.add(dfd[di])
                 if newconn == 2 and conn[di] != 2: pending[di] = b"hello\n0 vpc> "
                 if newconn != 2:
                     pending[di] = b""
@@ -664,7 +692,7 @@ def simulate_sched(seed, N, sickB, conf='mixp'):
     except Exception: pass
     p.wait()
     err = open(errpath).read(); os.unlink(errpath)
-    return dict(seed=seed, conf=conf, dump=dump, ops=ops, couts=couts, xs=xsl, stats=stats, died=died, stderr=err[-6000:], rc=p.returncode, clients=clients, sick_mode=sick_mode, teardown=teardown)
+    return dict(seed=seed, conf=conf, dump=dump, ops=ops, couts=couts, xs=xsl, stats=stats, died=died, stderr=err[-6000:], rc=p.returncode, clients=clients, sick_mode=sick_mode, teardown=teardown, afds=afds)
 
 
 # ---------------------------------------------------------------------------------------------------------------
